@@ -36,6 +36,7 @@ type c07rWorld struct {
 	addrs   []string
 	caseOps []string
 	nviol   map[string]int
+	twins   []*Epoch // epochs loaded without their address index for the live bring-up (closed by ReplaceOrAddEpoch)
 }
 
 func (w *c07rWorld) op(line, out string, nontrivial bool) {
@@ -101,6 +102,49 @@ func c07rSlice(flat []c07rItem, limit int, before, until string) []c07rItem {
 		}
 	}
 	return out
+}
+
+// bringUp loads a view into a fresh MultiEpoch.  The view of all generated epochs comes up through AddEpoch (the
+// start-up path of cmd-rpc.go); every smaller view comes up the way a watched config directory does: each epoch is
+// first there WITHOUT its address index, a request is served, then the same epoch number is replaced by the epoch
+// with the index through ReplaceOrAddEpoch (a config file rewritten while the server is answering).
+func (w *c07rWorld) bringUp(view []uint64, sigOnly bool, dir string) (*MultiEpoch, error) {
+	multi := NewMultiEpoch(&Options{EpochSearchConcurrency: 2, GsfaOnlySignatures: sigOnly})
+	if len(view) == len(w.les) {
+		for _, e := range view {
+			if err := multi.AddEpoch(e, w.les[e].Ep); err != nil {
+				return nil, err
+			}
+		}
+		return multi, nil
+	}
+	for _, e := range view {
+		tw := *w.les[e]
+		tw.GsfaDir = ""
+		conf, err := LoadConfig(tw.writeConfig(dir, fmt.Sprintf("epoch-%d-noindex-%d.yml", e, len(w.twins))))
+		if err != nil {
+			return nil, err
+		}
+		ep, err := NewEpochFromConfig(conf, newCliCtx(), verifCache(), nil)
+		if err != nil {
+			return nil, err
+		}
+		w.twins = append(w.twins, ep)
+		if err := multi.AddEpoch(e, ep); err != nil {
+			return nil, err
+		}
+	}
+	handler := newMultiEpochHandler(multi, nil)
+	if len(w.addrs) > 0 {
+		zz.Guard(func() string { _, b := doRPC(handler, c07rBody(w.addrs[0], "-", "-", "-")); return b })
+	}
+	for _, e := range view {
+		if err := multi.ReplaceOrAddEpoch(e, w.les[e].Ep); err != nil {
+			return nil, err
+		}
+	}
+	w.s.Count("views-brought-up-live")
+	return multi, nil
 }
 
 func c07rViewName(view []uint64) string {
@@ -332,9 +376,9 @@ func TestVerifC07Rpc(t *testing.T) {
 			}
 			h := servers[f[1]]
 			if h == nil {
-				multi := NewMultiEpoch(&Options{EpochSearchConcurrency: 2})
-				for _, e := range view {
-					multi.AddEpoch(e, w.les[e].Ep)
+				multi, err := w.bringUp(view, false, dir)
+				if err != nil {
+					t.Fatal(err)
 				}
 				handler := newMultiEpochHandler(multi, nil)
 				h = func(body string) string { _, b := doRPC(handler, body); return b }
@@ -367,11 +411,9 @@ func TestVerifC07Rpc(t *testing.T) {
 			if sigOnly && vi > 0 {
 				continue
 			}
-			multi := NewMultiEpoch(&Options{EpochSearchConcurrency: 2, GsfaOnlySignatures: sigOnly})
-			for _, e := range view {
-				if err := multi.AddEpoch(e, w.les[e].Ep); err != nil {
-					t.Fatal(err)
-				}
+			multi, err := w.bringUp(view, sigOnly, dir)
+			if err != nil {
+				t.Fatal(err)
 			}
 			handler := newMultiEpochHandler(multi, nil)
 			h := func(body string) string { _, b := doRPC(handler, body); return b }
